@@ -4,55 +4,71 @@
 (* (include/unifex/v1/async_scope.hpp) = a v2::async_scope (see ScopeV2:   *)
 (* packed open-bit + count word, join via the v1 manual reset event) plus  *)
 (* a stop source; attach(s) = v2 nest(attach_sender(s)); the attach        *)
-(* operation registers a stop callback on the scope's stop token, owns a   *)
-(* private stop source the nested operation listens to, and arbitrates     *)
-(* "nested operation completed" against "stop callback fired" with         *)
-(* refcount_ (1 -> 2 CAS in request_stop, fetch_sub in try_complete: the   *)
-(* party that takes it from 1 to 0 deregisters the callbacks and completes *)
-(* the receiver).  request_stop() = end_scope(); stopSource_.request_stop; *)
+(* operation registers stokenCallback_ on the scope's stop token and       *)
+(* receiverCallback_ on its receiver's stop token, owns a private stop     *)
+(* source the nested operation listens to, and arbitrates "nested          *)
+(* operation completed" against "a stop callback fired" with refcount_     *)
+(* (1 -> 2 CAS in request_stop, fetch_sub in try_complete: the party that  *)
+(* takes it from 1 to 0 deregisters both callbacks and completes the       *)
+(* receiver).  request_stop() = end_scope(); stopSource_.request_stop();   *)
 (* cleanup() = request_stop() then join() (a second end_scope()).          *)
 (*                                                                         *)
-(* The scope's stop source is coarse (C03's business): request_stop() sets *)
-(* the flag in one step and then runs the registered attach callbacks one  *)
-(* by one (each with its own schedule points); a second requester returns  *)
-(* at once; registration after the flag is set runs the callback inline;   *)
-(* deregistration waits while the callback runs on another thread.         *)
+(* Stop sources are coarse (C03's business): request_stop() sets the flag  *)
+(* in one step and then runs the registered callbacks one by one, most     *)
+(* recently registered first (each callback with its own schedule points); *)
+(* a second requester returns at once; registration after the flag is set  *)
+(* runs the callback inline; deregistration waits while the callback runs  *)
+(* on another thread.  Each work item's receiver has its own stop source   *)
+(* (op rstop).                                                             *)
 (* Schedule points: those of ScopeV2 plus scope.v1_rs, scope.at_cas,       *)
-(* scope.at_stop, scope.at_fsub, scope.at_cb2, scope.at_start, spin_wait.  *)
-(* Ops: ScopeV2's (nest = attach, spawn = spawn_detached, join =           *)
-(* complete()) plus <<"cleanup",j,0>> and <<"reqstop",0,0>>.               *)
+(* scope.at_stop, scope.at_fsub, scope.at_cb2, scope.at_start, spin_wait   *)
+(* (= dereg_wait).                                                         *)
+(* Ops: ScopeV2's nest (= attach) / start / discard / copy / lstart /      *)
+(* spawn (= spawn_detached) / complete / join (= complete()) plus          *)
+(* <<"cleanup",j,0>>, <<"reqstop",0,0>> and <<"rstop",w,0>> (request stop  *)
+(* on the stop source behind w's receiver).                                *)
 (***************************************************************************)
 EXTENDS Naturals, Sequences, FiniteSets, TLC
 
 CONSTANTS Threads, Items, Joins, Scenarios,
-          FirstCloserOnly   \* FALSE = the code as written; TRUE = proposed repair (see ScopeV2)
+          FirstCloserOnly   \* TRUE = the protocol /repo implements; FALSE = historical variant, spec-level mutation (see ScopeV2)
 
-VARIABLES scn, pi, pc, regS, regE, iter,
-          ret,           \* per thread: pending continuations (innermost first): "cbloop" | a schedule point
-          cbq,           \* per thread: callbacks its stopSource_.request_stop() still has to consider
+VARIABLES scn, pi, pc,
+          ret,           \* per thread: pending continuations (innermost first): "cbloop" | "rstop_end" | a schedule point
+          cbq,           \* per thread: callbacks its stopSource_.request_stop() still has to consider (in call order)
           cur,           \* per thread: the item whose attach operation it is working on
           phase,         \* per thread: cleanup() is in request_stop() (0) or in join() (1)
+          side,          \* per thread: the attach callback it runs is stokenCallback_ (1) or receiverCallback_ (2)
+          regS, regE, iter,
           setBy,         \* per thread: evt_.set() was called by end_scope ("es") or record_completion ("rc")
           open, count, evSig, evStack,
           stopReq,       \* scope stopSource_.stop_requested()
-          sref, ist,     \* ist: "none" | "sender" | "conn" (attach op started, leaf not yet) | "running" | "finished"
+          regSeq,        \* items whose stokenCallback_ is registered, most recent first
+          sref, ist,     \* ist: "none" | "sender" | "conn" (attach op started, leaf not yet) | "running" | "completing" | "finished"
           rc,            \* [Items -> 0..2] attach operation refcount_
-          cbReg,         \* [Items -> BOOLEAN] stokenCallback_ registered with the scope's stop source
-          cbRun,         \* [Items -> thread running the attach stop callback, 0 = none]
+          cbReg, cb2Reg, \* [Items -> BOOLEAN] stokenCallback_ / receiverCallback_ registered
+          cbRun, cbRun2, \* [Items -> thread running that callback, 0 = none]
           opStop,        \* [Items -> BOOLEAN] attach operation's own stop source requested
+          rStop,         \* [Items -> BOOLEAN] the receiver's stop source requested
           seen,          \* [Items -> BOOLEAN] the nested leaf has observed the stop request
           jst,
           adm, started, fin, mustAdmit, closeBegun, jdone,
-          delivered,     \* a stopSource_.request_stop() that ran the callbacks has returned
-          bad
-vars == <<scn, pi, pc, regS, regE, iter, ret, cbq, cur, phase, setBy, open, count, evSig, evStack, stopReq, sref, ist,
-          rc, cbReg, cbRun, opStop, seen, jst, adm, started, fin, mustAdmit, closeBegun, jdone, delivered, bad>>
+          stopOpen, stopEnded,   \* scope request_stop() calls in flight / one has returned
+          rOpen, rEnded,         \* per item: receiver-side request_stop() in flight / has returned
+          bad,
+          lastT, lastPc  \* export only (hidden by VIEW)
+vars == <<scn, pi, pc, ret, cbq, cur, phase, side, regS, regE, iter, setBy, open, count, evSig, evStack, stopReq, regSeq,
+          sref, ist, rc, cbReg, cb2Reg, cbRun, cbRun2, opStop, rStop, seen, jst, adm, started, fin, mustAdmit, closeBegun,
+          jdone, stopOpen, stopEnded, rOpen, rEnded, bad>>
 \* groups used in UNCHANGED clauses
-ctl == <<pi, pc, ret, cbq, cur, phase>>          \* control state set by Finish/Goto/Return
+regs == <<regS, regE, iter>>
 word == <<open, count>>
 evt == <<evSig, evStack>>
-att == <<rc, cbReg, opStop, seen>>
+reg == <<cbReg, cb2Reg, regSeq>>
+att == <<rc, opStop, rStop, seen>>
 hist == <<adm, started, fin, mustAdmit, closeBegun>>
+joins == <<jst, jdone>>
+\* owned by the control helpers Goto / Return: pi pc ret cbq cur phase side cbRun stopOpen stopEnded rOpen rEnded
 
 Prog(t) == scn.prog[t]
 Op(t) == Prog(t)[pi[t]]
@@ -63,47 +79,61 @@ PlannedJoins == {j \in Joins : \E t \in Threads : \E k \in 1..Len(Prog(t)) : Pro
 Freed == /\ PlannedJoins # {} /\ \A j \in PlannedJoins : jst[j] = "done"
          /\ \A t \in Threads : pc[t] = "end" \/ \A k \in pi[t]..Len(Prog(t)) : Prog(t)[k][1] \notin Direct
 Touch == bad' = IF Freed THEN "scope-touched-after-destruction" ELSE bad
+Remove(s, w) == SelectSeq(s, LAMBDA x : x # w)
 
 Init ==
   /\ scn \in Scenarios
   /\ pi = [t \in Threads |-> 1]
   /\ pc = [t \in Threads |-> IF Len(scn.prog[t]) = 0 THEN "end" ELSE "op"]
+  /\ ret = [t \in Threads |-> <<>>] /\ cbq = [t \in Threads |-> <<>>]
+  /\ cur = [t \in Threads |-> 0] /\ phase = [t \in Threads |-> 0] /\ side = [t \in Threads |-> 1]
   /\ regS = [t \in Threads |-> <<TRUE, 0>>] /\ regE = [t \in Threads |-> <<FALSE, <<>>>>]
-  /\ iter = [t \in Threads |-> <<>>] /\ ret = [t \in Threads |-> <<>>] /\ cbq = [t \in Threads |-> {}]
-  /\ cur = [t \in Threads |-> 0] /\ phase = [t \in Threads |-> 0] /\ setBy = [t \in Threads |-> "es"]
-  /\ open = TRUE /\ count = 0 /\ evSig = FALSE /\ evStack = <<>> /\ stopReq = FALSE
+  /\ iter = [t \in Threads |-> <<>>] /\ setBy = [t \in Threads |-> "es"]
+  /\ open = TRUE /\ count = 0 /\ evSig = FALSE /\ evStack = <<>> /\ stopReq = FALSE /\ regSeq = <<>>
   /\ sref = [w \in Items |-> FALSE] /\ ist = [w \in Items |-> "none"]
-  /\ rc = [w \in Items |-> 0] /\ cbReg = [w \in Items |-> FALSE] /\ cbRun = [w \in Items |-> 0]
-  /\ opStop = [w \in Items |-> FALSE] /\ seen = [w \in Items |-> FALSE]
+  /\ rc = [w \in Items |-> 0] /\ cbReg = [w \in Items |-> FALSE] /\ cb2Reg = [w \in Items |-> FALSE]
+  /\ cbRun = [w \in Items |-> 0] /\ cbRun2 = [w \in Items |-> 0]
+  /\ opStop = [w \in Items |-> FALSE] /\ rStop = [w \in Items |-> FALSE] /\ seen = [w \in Items |-> FALSE]
   /\ jst = [j \in Joins |-> "none"]
   /\ adm = [w \in Items |-> 0] /\ started = [w \in Items |-> FALSE] /\ fin = [w \in Items |-> FALSE]
   /\ mustAdmit = [w \in Items |-> FALSE] /\ closeBegun = FALSE /\ jdone = [j \in Joins |-> 0]
-  /\ delivered = FALSE /\ bad = "ok"
+  /\ stopOpen = 0 /\ stopEnded = FALSE /\ rOpen = [w \in Items |-> 0] /\ rEnded = [w \in Items |-> FALSE]
+  /\ bad = "ok" /\ lastT = 0 /\ lastPc = ""
 
-\* ---- control helpers (each fixes pi', pc', ret', cbq', cur', phase' and cbRun', delivered') ----
+\* ---- control helpers ----
 FinishPc(t) == /\ pi' = [pi EXCEPT ![t] = @ + 1]
                /\ pc' = [pc EXCEPT ![t] = IF pi[t] + 1 > Len(Prog(t)) THEN "end" ELSE "op"]
 GotoPc(t, l) == pc' = [pc EXCEPT ![t] = l] /\ pi' = pi
-\* plain jump inside the current call
-Goto(t, l) == GotoPc(t, l) /\ UNCHANGED <<ret, cbq, cur, phase, cbRun, delivered>>
-GotoCur(t, l, w) == GotoPc(t, l) /\ cur' = [cur EXCEPT ![t] = w] /\ UNCHANGED <<ret, cbq, phase, cbRun, delivered>>
+stopHist == <<stopOpen, stopEnded, rOpen, rEnded>>
+Goto(t, l) == GotoPc(t, l) /\ UNCHANGED <<ret, cbq, cur, phase, side, cbRun, stopHist>>
+GotoCur(t, l, w) == GotoPc(t, l) /\ cur' = [cur EXCEPT ![t] = w] /\ UNCHANGED <<ret, cbq, phase, side, cbRun, stopHist>>
+\* stopSource_.request_stop() of the scope has returned on thread t
+StopPartOver(t) ==
+  /\ stopOpen' = stopOpen - 1 /\ stopEnded' = TRUE /\ UNCHANGED <<rOpen, rEnded>>
+  /\ IF Name(t) = "cleanup" THEN GotoPc(t, "es_fand") /\ phase' = [phase EXCEPT ![t] = 1]
+     ELSE FinishPc(t) /\ UNCHANGED phase
 \* the current call returns: resume the innermost pending continuation; run0/reg0 = cbRun/cbReg as updated by this step
 Return(t, run0, reg0) ==
   IF ret[t] = <<>>
-  THEN FinishPc(t) /\ cbRun' = run0 /\ UNCHANGED <<ret, cbq, cur, phase, delivered>>
+  THEN FinishPc(t) /\ cbRun' = run0 /\ UNCHANGED <<ret, cbq, cur, phase, side, stopHist>>
   ELSE IF Head(ret[t]) = "cbloop"
-  THEN LET live == {w \in cbq[t] : reg0[w]} IN
-       IF live = {}
-       THEN \* stopSource_.request_stop() returns; request_stop() is finished, cleanup() goes on to join()
-            /\ delivered' = TRUE /\ cbRun' = run0
-            /\ cbq' = [cbq EXCEPT ![t] = {}] /\ ret' = [ret EXCEPT ![t] = Tail(@)] /\ UNCHANGED cur
-            /\ IF Name(t) = "cleanup" THEN GotoPc(t, "es_fand") /\ phase' = [phase EXCEPT ![t] = 1]
-               ELSE FinishPc(t) /\ UNCHANGED phase
-       ELSE \E w \in live :
-            /\ cbq' = [cbq EXCEPT ![t] = live \ {w}] /\ cur' = [cur EXCEPT ![t] = w]
-            /\ cbRun' = [run0 EXCEPT ![w] = t] /\ GotoPc(t, "at_cas") /\ UNCHANGED <<ret, phase, delivered>>
+  THEN LET live == SelectSeq(cbq[t], LAMBDA w : reg0[w]) IN
+       IF live = <<>>
+       THEN /\ cbRun' = run0 /\ cbq' = [cbq EXCEPT ![t] = <<>>] /\ ret' = [ret EXCEPT ![t] = Tail(@)]
+            /\ UNCHANGED <<cur, side>> /\ StopPartOver(t)
+       ELSE LET w == Head(live) IN
+            /\ cbq' = [cbq EXCEPT ![t] = Tail(live)] /\ cur' = [cur EXCEPT ![t] = w] /\ side' = [side EXCEPT ![t] = 1]
+            /\ cbRun' = [run0 EXCEPT ![w] = t] /\ GotoPc(t, "at_cas") /\ UNCHANGED <<ret, phase, stopHist>>
+  ELSE IF Head(ret[t]) = "rstop_end"
+  THEN \* the receiver's stop source request_stop() returns: op rstop is finished
+       /\ FinishPc(t) /\ ret' = [ret EXCEPT ![t] = Tail(@)] /\ cbRun' = run0
+       /\ rOpen' = [rOpen EXCEPT ![Op(t)[2]] = @ - 1] /\ rEnded' = [rEnded EXCEPT ![Op(t)[2]] = TRUE]
+       /\ UNCHANGED <<cbq, cur, phase, side, stopOpen, stopEnded>>
   ELSE /\ GotoPc(t, Head(ret[t])) /\ ret' = [ret EXCEPT ![t] = Tail(@)] /\ cbRun' = run0
-       /\ UNCHANGED <<cbq, cur, phase, delivered>>
+       /\ UNCHANGED <<cbq, cur, phase, side, stopHist>>
+\* an attach stop callback returns
+CbReturn(t, w) == IF side[t] = 1 THEN Return(t, [cbRun EXCEPT ![w] = 0], cbReg) /\ UNCHANGED cbRun2
+                  ELSE Return(t, cbRun, cbReg) /\ cbRun2' = [cbRun2 EXCEPT ![w] = 0]
 \* end_scope() has returned
 AfterEs(t) == IF Name(t) = "join" \/ (Name(t) = "cleanup" /\ phase[t] = 1) THEN Goto(t, "ev_w_load") ELSE Goto(t, "v1_rs")
 AfterSet(t) == IF setBy[t] = "rc" THEN Return(t, cbRun, cbReg) ELSE AfterEs(t)
@@ -115,12 +145,13 @@ Tgt(t) == IF Name(t) \in {"copy", "lstart"} THEN Op(t)[3] ELSE Op(t)[2]
 \*  - without: set_done
 StartOp(t, w, has) ==
   IF has
-  THEN /\ ist' = [ist EXCEPT ![w] = "conn"] /\ rc' = [rc EXCEPT ![w] = 1] /\ UNCHANGED fin
+  THEN /\ ist' = [ist EXCEPT ![w] = "conn"] /\ rc' = [rc EXCEPT ![w] = 1] /\ UNCHANGED <<fin, cb2Reg>>
        /\ IF stopReq
           THEN /\ GotoPc(t, "at_cas") /\ cur' = [cur EXCEPT ![t] = w] /\ ret' = [ret EXCEPT ![t] = <<"at_cb2">> \o @]
-               /\ cbRun' = [cbRun EXCEPT ![w] = t] /\ UNCHANGED <<cbReg, cbq, phase, delivered>>
-          ELSE /\ cbReg' = [cbReg EXCEPT ![w] = TRUE] /\ GotoCur(t, "at_cb2", w)
-  ELSE /\ ist' = [ist EXCEPT ![w] = "finished"] /\ fin' = [fin EXCEPT ![w] = TRUE] /\ UNCHANGED <<rc, cbReg>>
+               /\ side' = [side EXCEPT ![t] = 1]
+               /\ cbRun' = [cbRun EXCEPT ![w] = t] /\ UNCHANGED <<cbReg, regSeq, cbq, phase, stopHist>>
+          ELSE /\ cbReg' = [cbReg EXCEPT ![w] = TRUE] /\ regSeq' = <<w>> \o regSeq /\ GotoCur(t, "at_cb2", w)
+  ELSE /\ ist' = [ist EXCEPT ![w] = "finished"] /\ fin' = [fin EXCEPT ![w] = TRUE] /\ UNCHANGED <<rc, reg>>
        /\ Return(t, cbRun, cbReg)
 \* try_record_start returned `ok` (or was skipped): nest/copy return a sender, spawn/lstart start the operation
 Resolve(t, ok) ==
@@ -129,48 +160,64 @@ Resolve(t, ok) ==
   /\ sref' = [sref EXCEPT ![w] = ok]
   /\ mustAdmit' = [mustAdmit EXCEPT ![w] = ~closeBegun]
   /\ IF run THEN StartOp(t, w, ok)
-     ELSE /\ ist' = [ist EXCEPT ![w] = "sender"] /\ UNCHANGED <<fin, rc, cbReg>> /\ Return(t, cbRun, cbReg)
+     ELSE /\ ist' = [ist EXCEPT ![w] = "sender"] /\ UNCHANGED <<fin, rc, reg>> /\ Return(t, cbRun, cbReg)
 \* the party that took refcount_ from 1 to 0: callbacks deregistered, receiver completed (nest_receiver::complete:
 \* WorkDone), then the scope reference is dropped (record_completion)
+CanDereg(t, w) == cbRun[w] \in {0, t} /\ cbRun2[w] \in {0, t}
 DoComplete(t, w) ==
-  /\ cbReg' = [cbReg EXCEPT ![w] = FALSE] /\ cbRun' = [cbRun EXCEPT ![w] = 0]
+  /\ cbReg' = [cbReg EXCEPT ![w] = FALSE] /\ cb2Reg' = [cb2Reg EXCEPT ![w] = FALSE] /\ regSeq' = Remove(regSeq, w)
+  /\ cbRun' = [cbRun EXCEPT ![w] = 0] /\ cbRun2' = [cbRun2 EXCEPT ![w] = 0]
   /\ fin' = [fin EXCEPT ![w] = TRUE] /\ ist' = [ist EXCEPT ![w] = "finished"] /\ sref' = [sref EXCEPT ![w] = FALSE]
-  /\ GotoPc(t, "rc_fsub") /\ UNCHANGED <<ret, cbq, cur, phase, delivered>>
+  /\ GotoPc(t, "rc_fsub") /\ UNCHANGED <<ret, cbq, cur, phase, side, stopHist>>
 
 StepOp(t) ==
   /\ pc[t] = "op"
   /\ LET o == Op(t)  n == o[1] IN
      CASE n \in {"nest", "spawn"} ->
             /\ Goto(t, "trs_load")
-            /\ UNCHANGED <<scn, regS, regE, iter, setBy, word, evt, stopReq, sref, ist, att, jst, hist, jdone, bad>>
+            /\ UNCHANGED <<scn, regs, setBy, word, evt, stopReq, reg, sref, ist, att, cbRun2, joins, hist, bad>>
        [] n \in {"copy", "lstart"} ->
             IF sref[o[2]]
             THEN /\ Goto(t, "trs_load")
-                 /\ UNCHANGED <<scn, regS, regE, iter, setBy, word, evt, stopReq, sref, ist, att, jst, hist, jdone, bad>>
+                 /\ UNCHANGED <<scn, regs, setBy, word, evt, stopReq, reg, sref, ist, att, cbRun2, joins, hist, bad>>
             ELSE /\ Resolve(t, FALSE)
-                 /\ UNCHANGED <<scn, regS, regE, iter, setBy, word, evt, stopReq, opStop, seen, jst, started, closeBegun, jdone, bad>>
+                 /\ UNCHANGED <<scn, regs, setBy, word, evt, stopReq, opStop, rStop, seen, cbRun2, joins, started, closeBegun, bad>>
        [] n = "start" ->
             /\ StartOp(t, o[2], sref[o[2]])
-            /\ UNCHANGED <<scn, regS, regE, iter, setBy, word, evt, stopReq, sref, opStop, seen, jst, adm, started, mustAdmit, closeBegun, jdone, bad>>
+            /\ UNCHANGED <<scn, regs, setBy, word, evt, stopReq, sref, opStop, rStop, seen, cbRun2, joins, adm, started, mustAdmit, closeBegun, bad>>
        [] n = "discard" ->
             /\ fin' = [fin EXCEPT ![o[2]] = TRUE] /\ ist' = [ist EXCEPT ![o[2]] = "finished"]
             /\ sref' = [sref EXCEPT ![o[2]] = FALSE]
             /\ IF sref[o[2]] THEN Goto(t, "rc_fsub") ELSE Return(t, cbRun, cbReg)
-            /\ UNCHANGED <<scn, regS, regE, iter, setBy, word, evt, stopReq, att, jst, adm, started, mustAdmit, closeBegun, jdone, bad>>
+            /\ UNCHANGED <<scn, regs, setBy, word, evt, stopReq, reg, att, cbRun2, joins, adm, started, mustAdmit, closeBegun, bad>>
        [] n = "complete" ->
             IF ist[o[2]] = "running"
             THEN /\ ist' = [ist EXCEPT ![o[2]] = "completing"] /\ GotoCur(t, "at_fsub", o[2])
-                 /\ UNCHANGED <<scn, regS, regE, iter, setBy, word, evt, stopReq, sref, att, jst, hist, jdone, bad>>
+                 /\ UNCHANGED <<scn, regs, setBy, word, evt, stopReq, reg, sref, att, cbRun2, joins, hist, bad>>
             ELSE /\ IF ist[o[2]] = "finished" THEN Return(t, cbRun, cbReg) ELSE Goto(t, "wait")
-                 /\ UNCHANGED <<scn, regS, regE, iter, setBy, word, evt, stopReq, sref, ist, att, jst, hist, jdone, bad>>
+                 /\ UNCHANGED <<scn, regs, setBy, word, evt, stopReq, reg, sref, ist, att, cbRun2, joins, hist, bad>>
        [] n \in Closers ->
             /\ jst' = [jst EXCEPT ![o[2]] = "begun"] /\ closeBegun' = TRUE
-            /\ GotoPc(t, "es_fand") /\ phase' = [phase EXCEPT ![t] = 0] /\ UNCHANGED <<ret, cbq, cur, cbRun, delivered>>
-            /\ UNCHANGED <<scn, regS, regE, iter, setBy, word, evt, stopReq, sref, ist, att, adm, started, fin, mustAdmit, jdone, bad>>
+            /\ GotoPc(t, "es_fand") /\ phase' = [phase EXCEPT ![t] = 0]
+            /\ stopOpen' = IF n = "cleanup" THEN stopOpen + 1 ELSE stopOpen
+            /\ UNCHANGED <<ret, cbq, cur, side, cbRun, stopEnded, rOpen, rEnded>>
+            /\ UNCHANGED <<scn, regs, setBy, word, evt, stopReq, reg, sref, ist, att, cbRun2, jdone, adm, started, fin, mustAdmit, bad>>
        [] n = "reqstop" ->
-            /\ closeBegun' = TRUE
-            /\ GotoPc(t, "es_fand") /\ phase' = [phase EXCEPT ![t] = 0] /\ UNCHANGED <<ret, cbq, cur, cbRun, delivered>>
-            /\ UNCHANGED <<scn, regS, regE, iter, setBy, word, evt, stopReq, sref, ist, att, jst, adm, started, fin, mustAdmit, jdone, bad>>
+            /\ closeBegun' = TRUE /\ stopOpen' = stopOpen + 1
+            /\ GotoPc(t, "es_fand") /\ phase' = [phase EXCEPT ![t] = 0]
+            /\ UNCHANGED <<ret, cbq, cur, side, cbRun, stopEnded, rOpen, rEnded>>
+            /\ UNCHANGED <<scn, regs, setBy, word, evt, stopReq, reg, sref, ist, att, cbRun2, joins, adm, started, fin, mustAdmit, bad>>
+       [] n = "rstop" ->
+            \* request_stop() on the stop source behind item o[2]'s receiver: runs receiverCallback_ if it is registered
+            /\ rStop' = [rStop EXCEPT ![o[2]] = TRUE]
+            /\ IF cb2Reg[o[2]] /\ ~rStop[o[2]]
+               THEN /\ GotoPc(t, "at_cas") /\ cur' = [cur EXCEPT ![t] = o[2]] /\ side' = [side EXCEPT ![t] = 2]
+                    /\ ret' = [ret EXCEPT ![t] = <<"rstop_end">> \o @] /\ cbRun2' = [cbRun2 EXCEPT ![o[2]] = t]
+                    /\ rOpen' = [rOpen EXCEPT ![o[2]] = @ + 1]
+                    /\ UNCHANGED <<cbq, phase, cbRun, stopOpen, stopEnded, rEnded>>
+               ELSE /\ FinishPc(t) /\ rEnded' = [rEnded EXCEPT ![o[2]] = TRUE]
+                    /\ UNCHANGED <<ret, cbq, cur, phase, side, cbRun, cbRun2, stopOpen, stopEnded, rOpen>>
+            /\ UNCHANGED <<scn, regs, setBy, word, evt, stopReq, reg, sref, ist, rc, opStop, seen, joins, hist, bad>>
 StepWait(t) ==
   /\ pc[t] = "wait"
   /\ LET w == Op(t)[2] IN
@@ -178,29 +225,29 @@ StepWait(t) ==
      /\ IF ist[w] = "running"
         THEN ist' = [ist EXCEPT ![w] = "completing"] /\ GotoCur(t, "at_fsub", w)
         ELSE Return(t, cbRun, cbReg) /\ UNCHANGED ist
-  /\ UNCHANGED <<scn, regS, regE, iter, setBy, word, evt, stopReq, sref, att, jst, hist, jdone, bad>>
+  /\ UNCHANGED <<scn, regs, setBy, word, evt, stopReq, reg, sref, att, cbRun2, joins, hist, bad>>
 StepTrsLoad(t) ==
   /\ pc[t] = "trs_load" /\ Touch
   /\ regS' = [regS EXCEPT ![t] = <<open, count>>]
   /\ IF ~open THEN Resolve(t, FALSE)
-     ELSE Goto(t, "trs_cas") /\ UNCHANGED <<sref, ist, rc, cbReg, adm, fin, mustAdmit>>
-  /\ UNCHANGED <<scn, regE, iter, setBy, word, evt, stopReq, opStop, seen, jst, started, closeBegun, jdone>>
+     ELSE Goto(t, "trs_cas") /\ UNCHANGED <<sref, ist, rc, reg, adm, fin, mustAdmit>>
+  /\ UNCHANGED <<scn, regE, iter, setBy, word, evt, stopReq, opStop, rStop, seen, cbRun2, joins, started, closeBegun>>
 StepTrsCas(t) ==
   /\ pc[t] = "trs_cas" /\ Touch
   /\ IF <<open, count>> = regS[t]
      THEN count' = count + 1 /\ Resolve(t, TRUE) /\ UNCHANGED regS
      ELSE /\ regS' = [regS EXCEPT ![t] = <<open, count>>] /\ UNCHANGED count
           /\ IF ~open THEN Resolve(t, FALSE)
-             ELSE Goto(t, "trs_cas") /\ UNCHANGED <<sref, ist, rc, cbReg, adm, fin, mustAdmit>>
-  /\ UNCHANGED <<scn, regE, iter, setBy, open, evt, stopReq, opStop, seen, jst, started, closeBegun, jdone>>
+             ELSE Goto(t, "trs_cas") /\ UNCHANGED <<sref, ist, rc, reg, adm, fin, mustAdmit>>
+  /\ UNCHANGED <<scn, regE, iter, setBy, open, evt, stopReq, opStop, rStop, seen, cbRun2, joins, started, closeBegun>>
 \* ---- attach operation ----
 \* request_stop(): refcount_ 1 -> 2, else no-op (callback returns)
 StepAtCas(t) ==
   /\ pc[t] = "at_cas"
   /\ LET w == cur[t] IN
-     IF rc[w] = 1 THEN rc' = [rc EXCEPT ![w] = 2] /\ Goto(t, "at_stop")
-     ELSE UNCHANGED rc /\ Return(t, [cbRun EXCEPT ![w] = 0], cbReg)
-  /\ UNCHANGED <<scn, regS, regE, iter, setBy, word, evt, stopReq, sref, ist, cbReg, opStop, seen, jst, hist, jdone, bad>>
+     IF rc[w] = 1 THEN rc' = [rc EXCEPT ![w] = 2] /\ Goto(t, "at_stop") /\ UNCHANGED cbRun2
+     ELSE UNCHANGED rc /\ CbReturn(t, w)
+  /\ UNCHANGED <<scn, regs, setBy, word, evt, stopReq, reg, sref, ist, opStop, rStop, seen, joins, hist, bad>>
 \* stopSource_.request_stop() of the attach operation: the nested leaf (if started) sees it
 StepAtStop(t) ==
   /\ pc[t] = "at_stop"
@@ -208,29 +255,34 @@ StepAtStop(t) ==
      /\ opStop' = [opStop EXCEPT ![w] = TRUE]
      /\ seen' = [seen EXCEPT ![w] = @ \/ ist[w] \in {"running", "completing"}]
   /\ Goto(t, "at_fsub")
-  /\ UNCHANGED <<scn, regS, regE, iter, setBy, word, evt, stopReq, sref, ist, rc, cbReg, jst, hist, jdone, bad>>
+  /\ UNCHANGED <<scn, regs, setBy, word, evt, stopReq, reg, sref, ist, rc, rStop, cbRun2, joins, hist, bad>>
 \* try_complete(): fetch_sub(1); 1 -> 0 makes this party the completer
 StepAtFsub(t) ==
   /\ pc[t] = "at_fsub"
   /\ LET w == cur[t]  leafSide == Name(t) = "complete" IN
      /\ rc' = [rc EXCEPT ![w] = @ - 1]
      /\ IF rc[w] = 1
-        THEN IF cbRun[w] \notin {0, t}
-             THEN Goto(t, "dereg_wait") /\ UNCHANGED <<cbReg, fin, ist, sref, bad>>     \* callback running elsewhere: destruct() waits
+        THEN IF ~CanDereg(t, w)
+             THEN Goto(t, "dereg_wait") /\ UNCHANGED <<reg, cbRun2, fin, ist, sref, bad>>     \* a callback runs elsewhere: destruct() waits
              ELSE DoComplete(t, w) /\ Touch
-        ELSE /\ UNCHANGED <<cbReg, fin, sref, bad>>
-             /\ IF leafSide THEN UNCHANGED ist /\ Return(t, cbRun, cbReg)               \* the stop callback will complete it
-                ELSE UNCHANGED ist /\ Return(t, [cbRun EXCEPT ![w] = 0], cbReg)         \* callback returns
-  /\ UNCHANGED <<scn, regS, regE, iter, setBy, word, evt, stopReq, opStop, seen, jst, adm, started, mustAdmit, closeBegun, jdone>>
+        ELSE /\ UNCHANGED <<reg, fin, sref, ist, bad>>
+             /\ IF leafSide THEN Return(t, cbRun, cbReg) /\ UNCHANGED cbRun2      \* a stop callback will complete it
+                ELSE CbReturn(t, w)
+  /\ UNCHANGED <<scn, regs, setBy, word, evt, stopReq, opStop, rStop, seen, joins, adm, started, mustAdmit, closeBegun>>
 StepDeregWait(t) ==
   /\ pc[t] = "dereg_wait"
-  /\ cbRun[cur[t]] \in {0, t}
+  /\ CanDereg(t, cur[t])
   /\ DoComplete(t, cur[t]) /\ Touch
-  /\ UNCHANGED <<scn, regS, regE, iter, setBy, word, evt, stopReq, rc, opStop, seen, jst, adm, started, mustAdmit, closeBegun, jdone>>
-\* receiverCallback_ (the harness receiver is unstoppable): nothing to do
+  /\ UNCHANGED <<scn, regs, setBy, word, evt, stopReq, att, joins, adm, started, mustAdmit, closeBegun>>
+\* receiverCallback_ is registered (inline callback if the receiver's stop source is already stopped)
 StepAtCb2(t) ==
-  /\ pc[t] = "at_cb2" /\ Goto(t, "at_start")
-  /\ UNCHANGED <<scn, regS, regE, iter, setBy, word, evt, stopReq, sref, ist, att, jst, hist, jdone, bad>>
+  /\ pc[t] = "at_cb2"
+  /\ LET w == cur[t] IN
+     IF rStop[w]
+     THEN /\ GotoPc(t, "at_cas") /\ side' = [side EXCEPT ![t] = 2] /\ ret' = [ret EXCEPT ![t] = <<"at_start">> \o @]
+          /\ cbRun2' = [cbRun2 EXCEPT ![w] = t] /\ UNCHANGED <<cb2Reg, cbq, cur, phase, cbRun, stopHist>>
+     ELSE cb2Reg' = [cb2Reg EXCEPT ![w] = TRUE] /\ Goto(t, "at_start") /\ UNCHANGED cbRun2
+  /\ UNCHANGED <<scn, regs, setBy, word, evt, stopReq, cbReg, regSeq, sref, ist, att, joins, hist, bad>>
 \* the nested leaf is started: it sees a stop request iff the attach operation's stop source is already stopped
 StepAtStart(t) ==
   /\ pc[t] = "at_start"
@@ -238,73 +290,68 @@ StepAtStart(t) ==
      /\ ist' = [ist EXCEPT ![w] = "running"] /\ started' = [started EXCEPT ![w] = TRUE]
      /\ seen' = [seen EXCEPT ![w] = opStop[w]]
   /\ Return(t, cbRun, cbReg)
-  /\ UNCHANGED <<scn, regS, regE, iter, setBy, word, evt, stopReq, sref, rc, cbReg, opStop, jst, adm, fin, mustAdmit, closeBegun, jdone, bad>>
+  /\ UNCHANGED <<scn, regs, setBy, word, evt, stopReq, reg, sref, rc, opStop, rStop, cbRun2, joins, adm, fin, mustAdmit, closeBegun, bad>>
 \* ---- v2 scope ----
 StepRcFsub(t) ==
   /\ pc[t] = "rc_fsub" /\ Touch
   /\ count' = count - 1
   /\ IF ~open /\ count = 1 THEN Goto(t, "ev_xchg") /\ setBy' = [setBy EXCEPT ![t] = "rc"]
      ELSE Return(t, cbRun, cbReg) /\ UNCHANGED setBy
-  /\ UNCHANGED <<scn, regS, regE, iter, open, evt, stopReq, sref, ist, att, jst, hist, jdone>>
+  /\ UNCHANGED <<scn, regs, open, evt, stopReq, reg, sref, ist, att, cbRun2, joins, hist>>
 StepEsFand(t) ==
   /\ pc[t] = "es_fand" /\ Touch
   /\ open' = FALSE
   /\ IF count = 0 /\ (open \/ ~FirstCloserOnly) THEN Goto(t, "ev_xchg") /\ setBy' = [setBy EXCEPT ![t] = "es"]
      ELSE AfterEs(t) /\ UNCHANGED setBy
-  /\ UNCHANGED <<scn, regS, regE, iter, count, evt, stopReq, sref, ist, att, jst, hist, jdone>>
+  /\ UNCHANGED <<scn, regs, count, evt, stopReq, reg, sref, ist, att, cbRun2, joins, hist>>
 \* stopSource_.request_stop(): first requester runs the registered callbacks, later ones return at once
 StepRs(t) ==
   /\ pc[t] = "v1_rs" /\ Touch
   /\ stopReq' = TRUE
-  /\ IF stopReq
-     THEN /\ UNCHANGED <<ret, cbq, cur, cbRun, delivered>>
-          /\ IF Name(t) = "cleanup" THEN GotoPc(t, "es_fand") /\ phase' = [phase EXCEPT ![t] = 1]
-             ELSE FinishPc(t) /\ UNCHANGED phase
-     ELSE \* push the callback loop and enter it
-          LET live == {w \in Items : cbReg[w]} IN
-          IF live = {}
-          THEN /\ delivered' = TRUE /\ UNCHANGED <<ret, cbq, cur, cbRun>>
-               /\ IF Name(t) = "cleanup" THEN GotoPc(t, "es_fand") /\ phase' = [phase EXCEPT ![t] = 1]
-                  ELSE FinishPc(t) /\ UNCHANGED phase
-          ELSE \E w \in live :
-               /\ ret' = [ret EXCEPT ![t] = <<"cbloop">> \o @] /\ cbq' = [cbq EXCEPT ![t] = live \ {w}]
-               /\ cur' = [cur EXCEPT ![t] = w] /\ cbRun' = [cbRun EXCEPT ![w] = t]
-               /\ GotoPc(t, "at_cas") /\ UNCHANGED <<phase, delivered>>
-  /\ UNCHANGED <<scn, regS, regE, iter, setBy, word, evt, sref, ist, att, jst, hist, jdone>>
+  /\ IF stopReq \/ regSeq = <<>>
+     THEN UNCHANGED <<ret, cbq, cur, side, cbRun>> /\ StopPartOver(t)
+     ELSE LET w == Head(regSeq) IN
+          /\ ret' = [ret EXCEPT ![t] = <<"cbloop">> \o @] /\ cbq' = [cbq EXCEPT ![t] = Tail(regSeq)]
+          /\ cur' = [cur EXCEPT ![t] = w] /\ side' = [side EXCEPT ![t] = 1] /\ cbRun' = [cbRun EXCEPT ![w] = t]
+          /\ GotoPc(t, "at_cas") /\ UNCHANGED <<phase, stopHist>>
+  /\ UNCHANGED <<scn, regs, setBy, word, evt, reg, sref, ist, att, cbRun2, joins, hist>>
 StepEvXchg(t) ==
   /\ pc[t] = "ev_xchg" /\ Touch
   /\ evSig' = TRUE /\ evStack' = <<>>
   /\ IF evSig \/ evStack = <<>> THEN AfterSet(t) /\ UNCHANGED iter
      ELSE iter' = [iter EXCEPT ![t] = evStack] /\ Goto(t, "ev_pop")
-  /\ UNCHANGED <<scn, regS, regE, setBy, word, stopReq, sref, ist, att, jst, hist, jdone>>
+  /\ UNCHANGED <<scn, regS, regE, setBy, word, stopReq, reg, sref, ist, att, cbRun2, joins, hist>>
 StepEvPop(t) ==
   /\ pc[t] = "ev_pop"
   /\ JoinDone(Head(iter[t]))
   /\ iter' = [iter EXCEPT ![t] = Tail(@)]
   /\ IF Tail(iter[t]) = <<>> THEN AfterSet(t) ELSE Goto(t, "ev_pop")
-  /\ UNCHANGED <<scn, regS, regE, setBy, word, evt, stopReq, sref, ist, att, hist, bad>>
+  /\ UNCHANGED <<scn, regS, regE, setBy, word, evt, stopReq, reg, sref, ist, att, cbRun2, hist, bad>>
 StepEvWLoad(t) ==
   /\ pc[t] = "ev_w_load" /\ Touch
   /\ regE' = [regE EXCEPT ![t] = <<evSig, evStack>>]
   /\ IF evSig THEN JoinDone(Op(t)[2]) /\ Return(t, cbRun, cbReg)
-     ELSE Goto(t, "ev_w_cas") /\ UNCHANGED <<jst, jdone>>
-  /\ UNCHANGED <<scn, regS, iter, setBy, word, evt, stopReq, sref, ist, att, hist>>
+     ELSE Goto(t, "ev_w_cas") /\ UNCHANGED joins
+  /\ UNCHANGED <<scn, regS, iter, setBy, word, evt, stopReq, reg, sref, ist, att, cbRun2, hist>>
 StepEvWCas(t) ==
   /\ pc[t] = "ev_w_cas" /\ Touch
   /\ IF <<evSig, evStack>> = regE[t]
-     THEN evStack' = <<Op(t)[2]>> \o evStack /\ Return(t, cbRun, cbReg) /\ UNCHANGED <<regE, jst, jdone>>
+     THEN evStack' = <<Op(t)[2]>> \o evStack /\ Return(t, cbRun, cbReg) /\ UNCHANGED <<regE, joins>>
      ELSE /\ regE' = [regE EXCEPT ![t] = <<evSig, evStack>>] /\ UNCHANGED evStack
           /\ IF evSig THEN JoinDone(Op(t)[2]) /\ Return(t, cbRun, cbReg)
-             ELSE Goto(t, "ev_w_cas") /\ UNCHANGED <<jst, jdone>>
-  /\ UNCHANGED <<scn, regS, iter, setBy, word, evSig, stopReq, sref, ist, att, hist>>
+             ELSE Goto(t, "ev_w_cas") /\ UNCHANGED joins
+  /\ UNCHANGED <<scn, regS, iter, setBy, word, evSig, stopReq, reg, sref, ist, att, cbRun2, hist>>
 
 Step(t) == \/ StepOp(t) \/ StepWait(t) \/ StepTrsLoad(t) \/ StepTrsCas(t) \/ StepAtCas(t) \/ StepAtStop(t) \/ StepAtFsub(t)
            \/ StepDeregWait(t) \/ StepAtCb2(t) \/ StepAtStart(t) \/ StepRcFsub(t) \/ StepEsFand(t) \/ StepRs(t)
            \/ StepEvXchg(t) \/ StepEvPop(t) \/ StepEvWLoad(t) \/ StepEvWCas(t)
 AllEnd == \A t \in Threads : pc[t] = "end"
-Next == (\E t \in Threads : Step(t)) \/ (AllEnd /\ UNCHANGED vars)
-Spec == Init /\ [][Next]_vars
-FairSpec == Spec /\ \A t \in Threads : WF_vars(Step(t))
+ghosts == <<lastT, lastPc>>
+Next == \/ \E t \in Threads : Step(t) /\ lastT' = t /\ lastPc' = pc[t]
+        \/ (AllEnd /\ UNCHANGED vars /\ UNCHANGED ghosts)
+Spec == Init /\ [][Next]_<<vars, ghosts>>
+View == vars
+FairSpec == Spec /\ \A t \in Threads : WF_<<vars, ghosts>>(Step(t) /\ lastT' = t /\ lastPc' = pc[t])
 
 \* ---- properties (C08) ----
 AllAdmittedFinished == \A w \in Items : adm[w] = 1 => fin[w]
@@ -316,8 +363,10 @@ AdmittedIffBeforeClose == \A w \in Items : /\ (sref[w] => adm[w] = 1)
                                            /\ (mustAdmit[w] => adm[w] = 1)
 \* exactly one party completes an attach operation: refcount_ never underflows, a finished item has refcount 0
 AttachArbitration == \A w \in Items : rc[w] \in 0..2 /\ (ist[w] \in {"conn", "running"} => rc[w] >= 1)
-\* once a request_stop() that ran the callbacks has returned, every running nested operation has seen the stop request
-StopDeliveredToOutstanding == delivered => \A w \in Items : ist[w] = "running" => seen[w]
+\* once some stop request relevant to w (scope request_stop()/cleanup(), or the receiver's stop source) has returned and
+\* none is in flight, a still running nested operation has seen the stop request
+StopDeliveredToOutstanding ==
+  \A w \in Items : ((stopEnded \/ rEnded[w]) /\ stopOpen = 0 /\ rOpen[w] = 0 /\ ist[w] = "running") => seen[w]
 NoTouchAfterDestruction == bad = "ok"
 TerminalJoined == AllEnd => (AllAdmittedFinished => (\A j \in Joins : jst[j] # "begun") /\ evStack = <<>>)
 TerminalAllCompleted == AllEnd => \A w \in Items : ist[w] # "completing"      \* a completed leaf's receiver is completed by someone
